@@ -49,7 +49,7 @@ let rec build_table (tbl : lf_res list) (toks : string list) : lf_res list * str
           t := lf_unregister !t (bytes_of_string (Printf.sprintf "r/%d" (((k - 3) * 7919) mod 10007)))
       done;
       build_table !t tl
-  | ("U" | "P") :: tl -> build_table tbl tl     (* unknown / proxy-URI resource: not in the table *)
+  | ("U" | "P" | "UG" | "UW") :: tl -> build_table tbl tl     (* unknown / proxy-URI resource: not in the table *)
   | _ -> (tbl, toks)
 
 let filter_of_tok t = if t = "~" then None else Some (bytes_of_tok t)
@@ -147,6 +147,12 @@ let () =
         | "F" :: f :: tl -> take_opts (bytes_of_tok f :: acc) tl
         | rest -> (List.rev acc, rest) in
       let (opts, rest) = take_opts [] rest in
+      (* the last unknown-resource op decides whether that handler has GET and the flag *)
+      let last_u = List.fold_left (fun a t -> if t = "U" || t = "UG" || t = "UW" then t else a) "" toks in
+      match lf_wk_target false (last_u = "UG" || last_u = "UW") (last_u = "UW") with
+      | LfToUnknown -> "203"
+      | LfToApp -> "APP"
+      | LfToBuiltin ->
       match lf_handle_get tbl opts with
       | Lf503 -> "503"
       | LfFault -> "FAULT"
